@@ -13,6 +13,9 @@ use crate::{
     error::{ActorError::AlreadyStopped, Result},
 };
 pub use id::ContextID;
+#[cfg(hannibal_verif)]
+#[doc(hidden)]
+pub use id::__verif_reset_context_ids;
 
 pub type RunningFuture = futures::future::Shared<oneshot::Receiver<()>>;
 pub struct StopNotifier(pub(crate) oneshot::Sender<()>);
@@ -33,6 +36,15 @@ mod id {
         fn default() -> Self {
             Self(CONTEXT_ID.fetch_add(1, std::sync::atomic::Ordering::Relaxed))
         }
+    }
+
+    /// verif hook (compiled only with `--cfg hannibal_verif`, never in a normal build): restart the
+    /// process-wide id counter, so that a deterministic simulation can begin every run with the same
+    /// ids. Context ids key the broker's subscriber table, whose iteration order depends on them.
+    #[cfg(hannibal_verif)]
+    #[doc(hidden)]
+    pub fn __verif_reset_context_ids() {
+        CONTEXT_ID.store(0, std::sync::atomic::Ordering::Relaxed);
     }
 
     impl std::fmt::Display for ContextID {
